@@ -252,6 +252,20 @@ def flags(ctx):
             ok = all('mycls.__mro__' in src(v, 300) for v in st)
         ctx.check(ok, f'{init.qualname}:automatic property {attr}', init.node, f'{attr} computed from the implementing class',
                   f'{attr} is not computed from the implementing class (skipping the wrapper class)', init)
+    # these three are ordinary settable properties, so a configuration may name them: the computed value has to be stored
+    # AFTER the configured properties were applied (the last store wins)
+    cfgi = CFG(init.node, m, init.module)
+    applied = [i for c in calls_in(init.node) if call_attr(c) == 'setProperty' and dotted(c.func.value) == 'self'
+               and any(isinstance(a, ast.For) and 'propertyDict' in src(a.iter) for a in ancestors(c)) for i in cfgi.node_of(c)]
+    if not applied:
+        raise AnchorMissing('loop applying the configured module properties (self.setProperty in a loop over propertyDict) not found in Module.__init__')
+    for attr in ('implementation', 'interface_classes', 'features'):
+        sts = [i for t, v, s in attr_stores(init.node) if t.attr == attr and dotted(t.value) == 'self' for i in cfgi.node_of(s)]
+        later = cfgi.reach(sts) & set(applied) if sts else {0}
+        ctx.check(not later, f'{init.qualname}:automatic property {attr} overrides the configuration', init.node,
+                  'stored after the configured properties were applied',
+                  f'self.{attr} is computed before the loop that applies the configured module properties: a configuration that states '
+                  f'`{attr}` replaces the value derived from the implementing class and the description names an interface the module does not implement', init)
 
 
 @rule('C06.R5', min_instances=3)
@@ -338,3 +352,22 @@ def value_slots_tested_by_identity(ctx):
     configuration paths (dispatcher, modulebase, params, secnode, persistent)"""
     from sa.rules import common
     common.truthiness_on_value_slots(ctx, {'frappy.protocol.dispatcher', 'frappy.modulebase', 'frappy.params', 'frappy.secnode', 'frappy.persistent', 'frappy.modules'})
+
+
+@rule('C06.R8', min_instances=2)
+def description_is_computed_not_remembered(ctx):
+    """get_descriptive_data / export_accessibles build the report from the live modules on every call: they store nothing
+    on the node (datatype properties change after the first report - limits set in startModule, enum members added by
+    register_input - and a remembered report would then describe a datainfo the node no longer uses)"""
+    m = ctx.m
+    for name in ('get_descriptive_data', 'export_accessibles'):
+        f = m.method(SN, name, inherited=False)
+        ctx.analysed(f)
+        stores = [s for t, v, s in attr_stores(f.node) if dotted(t.value) == 'self']
+        stores += [n for n in body_walk(f.node) if isinstance(n, (ast.Assign, ast.AugAssign)) and
+                   any(isinstance(t, ast.Subscript) and dotted(t.value).startswith('self.') for t in (n.targets if isinstance(n, ast.Assign) else [n.target]))]
+        stores += [c for c in calls_in(f.node) if call_attr(c) in ('setdefault', 'update', 'append', 'add') and isinstance(c.func, ast.Attribute)
+                   and dotted(c.func.value).startswith('self.')]
+        ctx.check(not stores, f'{f.qualname}:stores nothing on the node', stores[0] if stores else f.node, 'pure function of the live modules',
+                  f'`{src(stores[0]) if stores else ""}`: the report (or a part of it) is remembered on the node and reused for later describe requests: '
+                  'a datatype property that changes afterwards is described with its old value while requests are validated with the new one', f)
